@@ -53,6 +53,7 @@ Run "cutadapt --help" to see all command-line options.
 See https://cutadapt.readthedocs.io/ for full documentation.
 """
 import copy
+import os
 import sys
 import time
 import shutil
@@ -475,12 +476,14 @@ def complain_about_duplicate_paths(paths: List[str]):
         if p.exists() and not p.is_file():
             # assumed to be FIFO, /dev/null etc.
             continue
-        if path in seen:
+        # "out.fastq", "./out.fastq" and "dir/../out.fastq" are the same file
+        normalized = os.path.abspath(path) if path != "-" else path
+        if normalized in seen:
             raise CommandLineError(
                 f"Path {path} specified more than once as an output file. "
                 f"This is not supported at the moment."
             )
-        seen.add(path)
+        seen.add(normalized)
 
 
 def determine_demultiplex_mode(
